@@ -299,3 +299,76 @@ func VerifH_C03_traversal_with_updates() {
 	}
 	verifAssert(visited == total, "every-key-visited-exactly-once")
 }
+
+// filling positions 1..n in any rotation / direction / interleaving (so that
+// keys sit in the hash part first and migrate to the array part when it grows,
+// several at a time and in any slot order): afterwards every key reads back
+// its (symbolic) value, the length is n, a traversal visits every key exactly
+// once, and clearing any one key really removes it and leaves a border.
+func VerifH_C03_fill_orders_and_migration() {
+	n := 4 + verifChoose("n", 6) // 4..9 keys
+	start := verifChoose("start", n)
+	pattern := verifChoose("pattern", 4) // 0 ascending, 1 descending rotation, 2 odd-then-even, 3 outside-in
+	vals := make([]Value, n+1)
+	for i := 1; i <= n; i++ {
+		vals[i] = IntValue(nondetInt64("v"))
+	}
+	order := make([]int, 0, n)
+	switch pattern {
+	case 0:
+		for i := 0; i < n; i++ {
+			order = append(order, (start+i)%n+1)
+		}
+	case 1:
+		for i := 0; i < n; i++ {
+			order = append(order, (start+n-i)%n+1)
+		}
+	case 2:
+		for i := 1; i <= n; i += 2 {
+			order = append(order, (start+i-1)%n+1)
+		}
+		for i := 2; i <= n; i += 2 {
+			order = append(order, (start+i-1)%n+1)
+		}
+	case 3:
+		for lo, hi := 1, n; lo <= hi; lo, hi = lo+1, hi-1 {
+			order = append(order, (start+hi-1)%n+1)
+			if lo != hi {
+				order = append(order, (start+lo-1)%n+1)
+			}
+		}
+	}
+	t := NewTable()
+	for _, k := range order {
+		t.Set(IntValue(int64(k)), vals[k])
+	}
+	for i := 1; i <= n; i++ {
+		verifAssert(vhSameValue(t.Get(IntValue(int64(i))), vals[i]), "every-key-reads-back")
+	}
+	verifAssert(t.Len() == int64(n), "length-of-the-filled-sequence")
+	seen := make([]int, n+1)
+	count := 0
+	k := NilValue
+	for {
+		nk, v, ok := t.Next(k)
+		verifAssert(ok, "next-accepts-its-own-key")
+		if !ok || nk.IsNil() || count > n+1 {
+			break
+		}
+		count++
+		if i, isInt := nk.TryInt(); isInt && i >= 1 && i <= int64(n) {
+			seen[i]++
+			verifAssert(vhSameValue(v, vals[i]), "traversal-yields-the-stored-value")
+		}
+		k = nk
+	}
+	verifAssert(count == n, "traversal-visits-n-keys")
+	for i := 1; i <= n; i++ {
+		verifAssert(seen[i] == 1, "every-key-visited-exactly-once")
+	}
+	drop := 1 + verifChoose("drop", n)
+	t.Set(IntValue(int64(drop)), NilValue)
+	verifAssert(t.Get(IntValue(int64(drop))).IsNil(), "cleared-key-is-gone")
+	l := t.Len()
+	verifAssert(l >= 0 && l <= int64(n) && (l == 0 || !t.Get(IntValue(l)).IsNil()) && t.Get(IntValue(l+1)).IsNil(), "length-is-a-border-after-clearing")
+}
